@@ -2117,6 +2117,40 @@ class LogicalFile:
         self._check_channels_assigned_to_frames()
         self._check_defining_origin_params()
         self._check_sets_not_shared()
+        self._check_references()
+
+    def _check_references(self) -> None:
+        """Check that the objects referred to by the objects and the no-format data of this logical file belong to it.
+
+        A reference is only meaningful within its logical file. An object of another logical file (or of no file at all)
+        would be referred to by an identity that is not defined in this one - or is that of another, same-named object.
+        """
+
+        own_sets = [eflr_set for set_dict in self._eflr_sets.values() for eflr_set in set_dict.values()]
+
+        def belongs_here(item: EFLRItem) -> bool:
+            return item is self.file_header_item or any(item.parent is eflr_set for eflr_set in own_sets)
+
+        def referred_items(value: Any) -> Generator:
+            if isinstance(value, (list, tuple)):
+                for v in value:
+                    yield from referred_items(v)
+            elif isinstance(value, EFLRItem):
+                yield value
+
+        for eflr_set in own_sets:
+            for item in eflr_set.get_all_eflr_items():
+                for attr in item.attributes.values():
+                    for referred_item in referred_items(attr.value):
+                        if not belongs_here(referred_item):
+                            raise RuntimeError(f"{referred_item}, referred to by {attr.label} of {item}, "
+                                               f"has not been added to the same logical file")
+
+        for nf_data in self._no_format_frame_data:
+            nf_object = nf_data.no_format_object
+            if not isinstance(nf_object, eflr_types.NoFormatItem) or not belongs_here(nf_object):
+                raise RuntimeError(f"No-format data have been added for {nf_object}, "
+                                   f"which is not a no-format object of this logical file")
 
     def _check_sets_not_shared(self) -> None:
         """Check that none of the sets of this logical file also holds the objects of another logical file.
